@@ -75,7 +75,8 @@ MANIFEST = {
             'handling are decided on generated histories of the gated real '
             'scheduler.'
             '  Exec requests carry pre_exec statements (import, export, print): their output is captured, their exports undone.'
-            "  The master's task service: `_run_task` on service threads while the results go through `_result_cb` on a getter thread, possibly at once - every answered request returns, no bookkeeping is left.",
+            "  The master's task service: `_run_task` on service threads while the results go through `_result_cb` on a getter thread, possibly at once - every answered request returns, no bookkeeping is left."
+            '  State updates for executable requests carry the raptor id they were addressed with (none, empty, this master, any master `*`): each is advanced exactly once.',
     'note': 'objects are built with __new__ plus constructor attributes; the '
             'ZMQ queues are the in-memory shim; quiescence is decided '
             'logically (request processes exited, sentinel passed the result '
@@ -1740,7 +1741,11 @@ def gen_master_case(rng):
                         'mode' : rng.choice([TASK_EXECUTABLE, RAPTOR_WORKER]),
                         'target_state': rng.choice([rps.DONE, rps.FAILED,
                                                     rps.CANCELED]),
-                        'exit' : rng.choice([0, 1])})
+                        'exit' : rng.choice([0, 1]),
+                        # how the request was addressed: to nobody (the master
+                        # submitted it itself), to this master, to any master
+                        'raptor_id': [None, '', 'own', '*'][
+                                       (i + n + len(tasks[0]['sandbox'])) % 4]})
     return {'tasks': tasks, 'updates': updates, 'seed': rng.randint(0, 2 ** 30),
             'bulk': rng.choice([1, 2, 3, 99])}
 
@@ -1854,6 +1859,10 @@ def run_master_case(case, res, workdir):
         for u in case['updates']:
             t = master_task({'uid': u['uid'], 'mode': u['mode'],
                              'sandbox': ''})
+            rid = u.get('raptor_id')
+            if rid is not None:
+                t['description']['raptor_id'] = m._uid if rid == 'own' else rid
+            res.see('update_raptor_ids', str(rid))
             t['target_state'] = u['target_state']
             t['exit_code']    = u['exit']
             t['state']        = rps.AGENT_STAGING_OUTPUT_PENDING
